@@ -6,7 +6,8 @@ table, of both censoring tables and of compress_kmers_no_exts; the canonical-for
 returns the smaller of the two strands and the flip flag, min_rc its first component, is_palindrome ⇔ K even ∧ self = rc);
 Exts::rc as an 8-bit lemma (sides swapped, bases complemented) and its use on flipped observations; flag plumbing: every
 public entry passes its `stranded` argument unchanged to the graph and to the worker, combine keeps it (also when some
-shard graphs are empty); reverse-complemented views (the usual way to hand over an rc read) remap get / get_kmer / slice exactly."""
+shard graphs are empty); reverse-complemented views (the usual way to hand over an rc read) remap get / get_kmer / slice exactly.
+Added later: rc lemmas of the read containers, both chain tables with every stored orientation."""
 from .. import dt_tables, dt_graph, dt_filter, dt_compress, dt_seq, dt_msp, lemmas, dt_export
 from . import common
 
